@@ -85,7 +85,7 @@ def strategy(tier):
 
 
 def examples(tier):
-    return 2400 if tier == "quick" else 40000
+    return 2400 if tier == "quick" else 80000
 
 
 def _inst_src(inst):
